@@ -774,19 +774,21 @@ package zap
 // global.go: std-log redirection (C19, C15)
 
 // An Option only configures the logger it is applied to (a private clone).
+// An Option is applied only to a logger that is not shared yet (the clone WithOptions/New just made).
 //@ iface zap.Option.apply
 //@   params log
+//@   requires log != nil && unpublished(log)
 //@   modifies *log, $user
 
 //@ func (*zap.Logger).clone
-//@   props C07 C19
+//@   props C07 C19 C09
 //@   flags nopanic
 //@   requires log != nil
 //@   modifies nothing
-//@   ensures fresh(result) && *result == old(*log)
+//@   ensures fresh(result) && *result == old(*log) && unpublished(result)
 
 //@ func (*zap.Logger).WithOptions
-//@   props C07 C19 C15
+//@   props C07 C19 C15 C09
 //@   flags nopanic
 //@   requires log != nil
 //@   requires forall k int :: 0 <= k && k < len(opts) ==> opts[k] != nil
@@ -796,7 +798,7 @@ package zap
 //@   ensures fresh(result)
 //@   ensures #AP == len(opts) && (forall k int :: 0 <= k && k < len(opts) ==> AP.recv[k] == opts[k] && AP.arg0[k] == result)
 //@   ensures *log == old(*log)
-//@   loop 1 invariant 0 <= $idx && $idx <= len(opts) && #AP == $idx && *log == old(*log) && #CL == 1 && fresh(CL.ret0[0])
+//@   loop 1 invariant 0 <= $idx && $idx <= len(opts) && #AP == $idx && *log == old(*log) && #CL == 1 && fresh(CL.ret0[0]) && unpublished(CL.ret0[0])
 //@   loop 1 invariant type_frame(type(Logger))
 //@   loop 1 invariant forall k int :: 0 <= k && k < $idx ==> AP.recv[k] == opts[k] && AP.arg0[k] == CL.ret0[0]
 
@@ -808,9 +810,9 @@ package zap
 
 // AddCallerSkip(k) shifts the reported caller outward by exactly k frames (C15).
 //@ func zap.AddCallerSkip$1
-//@   props C15
+//@   props C15 C09
 //@   flags nopanic
-//@   requires log != nil
+//@   requires log != nil && unpublished(log)
 //@   requires -1000000 <= *skip && *skip <= 1000000 && -1000000 <= log.callerSkip && log.callerSkip <= 1000000
 //@   modifies log.callerSkip
 //@   ensures log.callerSkip == old(log.callerSkip) + old(*skip)
@@ -1077,7 +1079,7 @@ package zap
 // itself is machine-checked by the tracks of the front-end contracts (#C == 1, #L == 1, #CK == 1).
 
 //@ func (*zap.Logger).Sugar
-//@   props C15 C07
+//@   props C15 C07 C09
 //@   flags nopanic
 //@   requires log != nil && -1000000 <= log.callerSkip && log.callerSkip <= 1000000
 //@   modifies nothing
@@ -1087,7 +1089,7 @@ package zap
 //@   ensures *log == old(*log)
 
 //@ func (*zap.SugaredLogger).Desugar
-//@   props C15 C07
+//@   props C15 C07 C09
 //@   flags nopanic
 //@   requires s != nil && s.base != nil && -1000000 <= s.base.callerSkip && s.base.callerSkip <= 1000000
 //@   modifies nothing
@@ -1102,7 +1104,7 @@ package zap
 //@   statement forall k int :: (k + 2) - 2 == k
 
 //@ func (*zap.Logger).Named
-//@   props C07
+//@   props C07 C09
 //@   flags nopanic
 //@   requires log != nil
 //@   modifies nothing
@@ -1113,7 +1115,7 @@ package zap
 //@   ensures *log == old(*log)
 
 //@ func (*zap.Logger).With
-//@   props C07
+//@   props C07 C09
 //@   flags nopanic
 //@   requires log != nil && log.core != nil
 //@   track W = invoke zapcore.Core.With
@@ -1169,3 +1171,190 @@ package zap
 //@   ensures result.Type == zapcore.TimeFullType ==> typeof(result.Interface) == type(time.Time) && as(result.Interface, type(time.Time)) == val && result.Integer == 0
 //@   ensures result.Type == zapcore.TimeType ==> (result.Interface == nil || typeof(result.Interface) == type(*time.Location))
 //@   ensures result.Type == zapcore.TimeFullType <==> (time.Time.Before(val, _minTimeInt64) || time.Time.After(val, _maxTimeInt64))
+
+// ---------------------------------------------------------------------------
+// Immutability after publication (C09): Logger and SugaredLogger are written only while unpublished -
+// in the function that allocated them, or in an option applied to the clone WithOptions/New just
+// made. Shared loggers are therefore read-only, which is what makes concurrent use race-free.
+
+//@ immutable zap.Logger props C09
+//@ immutable zap.SugaredLogger props C09
+
+// every optionFunc boxed into an Option is a closure literal of this package, never nil
+//@ typeinv zap.optionFunc f: f != nil
+
+//@ func (zap.optionFunc).apply
+//@   props C09
+//@   refines zap.Option.apply
+//@   flags trust-callees-nopanic
+//@   requires log != nil && unpublished(log)
+//@   modifies *log, $user
+
+//@ callback (zap.optionFunc).apply.f
+//@   params log
+//@   requires log != nil && unpublished(log)
+//@   modifies *log, $user
+
+//@ func zap.WrapCore$1
+//@   props C09
+//@   refines callback:(zap.optionFunc).apply.f
+//@   flags trust-callees-nopanic
+//@   requires log != nil && unpublished(log)
+//@   modifies log.core, $user
+
+//@ func zap.Hooks$1
+//@   props C09
+//@   refines callback:(zap.optionFunc).apply.f
+//@   flags trust-callees-nopanic
+//@   requires log != nil && unpublished(log)
+//@   assumes log.core != nil && (forall k int :: 0 <= k && k < len(*hooks) ==> (*hooks)[k] != nil)
+//@   modifies log.core, $user
+
+//@ func zap.Fields$1
+//@   props C09
+//@   refines callback:(zap.optionFunc).apply.f
+//@   flags trust-callees-nopanic
+//@   requires log != nil && unpublished(log)
+//@   modifies log.core, $user
+
+//@ func zap.ErrorOutput$1
+//@   props C09
+//@   refines callback:(zap.optionFunc).apply.f
+//@   flags trust-callees-nopanic
+//@   requires log != nil && unpublished(log)
+//@   modifies log.errorOutput
+
+//@ func zap.Development$1
+//@   props C09
+//@   refines callback:(zap.optionFunc).apply.f
+//@   flags trust-callees-nopanic
+//@   requires log != nil && unpublished(log)
+//@   modifies log.development
+
+//@ func zap.WithCaller$1
+//@   props C09
+//@   refines callback:(zap.optionFunc).apply.f
+//@   flags trust-callees-nopanic
+//@   requires log != nil && unpublished(log)
+//@   modifies log.addCaller
+
+//@ func zap.AddStacktrace$1
+//@   props C09
+//@   refines callback:(zap.optionFunc).apply.f
+//@   flags trust-callees-nopanic
+//@   requires log != nil && unpublished(log)
+//@   modifies log.addStack
+
+//@ func zap.IncreaseLevel$1
+//@   props C09
+//@   refines callback:(zap.optionFunc).apply.f
+//@   flags trust-callees-nopanic
+//@   requires log != nil && unpublished(log)
+//@   assumes log.core != nil && *lvl != nil
+//@   modifies log.core, $user
+
+//@ func zap.WithPanicHook$1
+//@   props C09
+//@   refines callback:(zap.optionFunc).apply.f
+//@   flags trust-callees-nopanic
+//@   requires log != nil && unpublished(log)
+//@   modifies log.onPanic
+
+//@ func zap.WithFatalHook$1
+//@   props C09
+//@   refines callback:(zap.optionFunc).apply.f
+//@   flags trust-callees-nopanic
+//@   requires log != nil && unpublished(log)
+//@   modifies log.onFatal
+
+//@ func zap.WithClock$1
+//@   props C09
+//@   refines callback:(zap.optionFunc).apply.f
+//@   flags trust-callees-nopanic
+//@   requires log != nil && unpublished(log)
+//@   modifies log.clock
+
+// user function given to WrapCore: arbitrary, reaches zap state only through exported methods
+//@ callback zap.WrapCore$1.f
+//@   modifies $user
+
+// The option constructors: each boxes a closure literal (typeinv.make of zap.optionFunc is checked
+// where the closure is converted to Option), allocates nothing shared and touches no logger.
+//@ func zap.WrapCore
+//@   props C09
+//@   flags nopanic
+//@   modifies nothing
+//@   ensures result != nil
+
+//@ func zap.Hooks
+//@   props C09
+//@   flags nopanic
+//@   modifies nothing
+//@   ensures result != nil
+
+//@ func zap.Fields
+//@   props C09
+//@   flags nopanic
+//@   modifies nothing
+//@   ensures result != nil
+
+//@ func zap.ErrorOutput
+//@   props C09
+//@   flags nopanic
+//@   modifies nothing
+//@   ensures result != nil
+
+//@ func zap.Development
+//@   props C09
+//@   flags nopanic
+//@   modifies nothing
+//@   ensures result != nil
+
+//@ func zap.AddCaller
+//@   props C09
+//@   flags nopanic
+//@   modifies nothing
+//@   ensures result != nil
+
+//@ func zap.WithCaller
+//@   props C09
+//@   flags nopanic
+//@   modifies nothing
+//@   ensures result != nil
+
+//@ func zap.AddStacktrace
+//@   props C09
+//@   flags nopanic
+//@   modifies nothing
+//@   ensures result != nil
+
+//@ func zap.IncreaseLevel
+//@   props C09
+//@   flags nopanic
+//@   modifies nothing
+//@   ensures result != nil
+
+//@ func zap.WithPanicHook
+//@   props C09
+//@   flags nopanic
+//@   modifies nothing
+//@   ensures result != nil
+
+//@ func zap.OnFatal
+//@   props C09
+//@   flags nopanic
+//@   modifies nothing
+//@   ensures result != nil
+
+//@ func zap.WithFatalHook
+//@   props C09
+//@   flags nopanic
+//@   modifies nothing
+//@   ensures result != nil
+
+//@ func zap.WithClock
+//@   props C09
+//@   flags nopanic
+//@   modifies nothing
+//@   ensures result != nil
+
